@@ -33,6 +33,8 @@ def coq_value(v):
     if isinstance(v, list):
         return f"(VArr {coq_list([coq_value(x) for x in v])})"
     if isinstance(v, dict):
+        if v.get("class") == "File":
+            v = {"basename": v["basename"], "class": "File", "contents": v.get("contents", "")}
         return "(VRec " + coq_list([f"({coq_str(k)}, {coq_value(v[k])})" for k in sorted(v)]) + ")"
     raise ValueError(f"not a mini-CWL value: {v!r}")
 
@@ -72,6 +74,8 @@ def coq_when(w):
     k = w[0]
     if k == "gt":
         return f"(Some (CGt {coq_str(w[1])} {coq_Z(w[2])}))"
+    if k == "lt":
+        return f"(Some (CLt {coq_str(w[1])} {coq_Z(w[2])}))"
     return "(Some (%s %s))" % ({"bool": "CBool", "nonnull": "CNonNull", "raw": "CRaw"}[k], coq_str(w[1]))
 
 
@@ -82,12 +86,28 @@ def coq_link(l):
                d, coq_vf(l.get("vf"))))
 
 
+def coq_tool(run):
+    k = run["tool"]
+    if k in ("mkfile", "ccat", "ccp"):
+        return "(%s %s)" % ({"mkfile": "TMkFile", "ccat": "TCCat", "ccp": "TCCp"}[k], coq_str(run["name"]))
+    if k in ("cwc", "fcontents"):
+        return {"cwc": "TCWc", "fcontents": "TFContents"}[k]
+    return TOOL[k]
+
+
 def coq_wf(wf):
     ins = coq_list(["(%s, %s)" % (coq_str(i["id"]), coq_opt(i["default"], coq_value) if "default" in i else "None")
                     for i in wf["inputs"]])
     steps = []
     for s in wf["steps"]:
-        run = f"(RWf {coq_wf(s['run']['wf'])})" if "wf" in s["run"] else f"(RTool {TOOL[s['run']['tool']]})"
+        run = f"(RWf {coq_wf(s['run']['wf'])})" if "wf" in s["run"] else f"(RTool {coq_tool(s['run'])})"
+        if s.get("loop"):
+            lp = s["loop"]
+            steps.append("(LStep %s %s %s %s %s %s %s)" % (
+                coq_str(s["id"]), run, coq_list([coq_link(l) for l in s["in"]]),
+                coq_list(["(%s, %s)" % (coq_str(k), coq_str(o)) for k, o in lp["map"]]),
+                coq_when(lp["when"])[6:-1], coq_bool(lp["all"]), coq_list([coq_str(o["id"]) for o in s["out"]])))
+            continue
         steps.append("(Step %s %s %s %s %s %s %s)" % (
             coq_str(s["id"]), run, coq_list([coq_link(l) for l in s["in"]]),
             coq_list([coq_str(x) for x in s["scatter"]]), METHOD[s.get("method")], coq_when(s.get("when")),
@@ -328,8 +348,12 @@ class C29(Prop):
     LEVEL = "translation_validation"
     LEVEL_TEXT = ("Translation validation, not a proof of the claim: whole-language equivalence of StreamFlow's CWL "
                   "translation with the CWL semantics is NOT proved. Every run: generated mini-CWL programs (ExpressionTool "
-                  "steps from a fixed 13-tool library; scatter with the three methods; linkMerge; pickValue; when; "
-                  "valueFrom; defaults; nested subworkflows; int/string/boolean/null/array/record values) are rendered as "
+                  "steps from a fixed 13-tool library plus five File tools — three CommandLineTools (cat to stdout, cp with a "
+                  "glob output, wc -c with outputEval) and two ExpressionTools (file literal, loadContents); scatter with the "
+                  "three methods; linkMerge; pickValue; when; valueFrom; defaults; nested subworkflows; cwltool:Loop steps "
+                  "(loopWhen, loop, outputMethod last/all, 0..12 iterations, inside scattered subworkflows and around a "
+                  "scattering subworkflow); int/string/boolean/null/array/record/File values, Files compared by basename and "
+                  "contents with size and checksum checked against the contents) are rendered as "
                   "CWL v1.2 documents and run by StreamFlow's cwl-runner entry point, by cwltool 3.2 and by the Gallina "
                   "reference interpreter Cwl/Sem.v evaluated with vm_compute inside Coq; output objects are compared "
                   "including array order, nulls and success/failure. Theorems (closed under the global context) cover only "
@@ -350,14 +374,19 @@ class C29(Prop):
                   "engine, JavaScript evaluation, type checking; the scatter networks are proved for a pure job over the scattered "
                   "ports only (no when/valueFrom/default/broadcast inside; size transformers and the empty-scatter step not "
                   "composed; nested_crossproduct for two inputs). Not "
-                  "exercised: File/Directory values, CommandLineTools, loops, CWL v1.0/v1.1/v1.3. Trusted: Coq kernel + "
+                  "exercised: Directory values, secondaryFiles, Docker, scattered or looped File tools, loop valueFrom / loopSource "
+                  "forms, CWL v1.0/v1.1/v1.3. Trusted: Coq kernel + "
                   "vm_compute; Cwl/Sem.v as a reading of the CWL v1.2 text (cross-checked against cwltool on every run); "
                   "cwltool as the reference; node.js; the Python generator/renderer. No axioms.")
     TECHNIQUE = ("three-way differential (StreamFlow / cwltool / Gallina interpreter evaluated in Coq) + Coq proofs of "
                  "operator laws + vm_compute correspondence of operator models against the Python operators")
     RULE = ("programs: 1..6 steps built goal-directed so that every link is well-typed (workflow inputs created on "
             "demand), each step a tool of the library or a generated subworkflow, inputs bound by direct link / scatter / "
-            "merge_nested / merge_flattened / pickValue over optional sources / default / valueFrom, optional `when`; "
+            "merge_nested / merge_flattened / pickValue over optional sources / default / valueFrom, optional `when`; 7 % "
+            "of the steps are cwltool:Loop steps (a tool, or a subworkflow that scatters inside), 10 % File tools (never "
+            "scattered or looped: same-named outputs would collide; loadContents only on files written by a CommandLineTool, "
+            "cwltool cannot read a file literal there; loop outputs are only exported, the static checkers type them "
+            "differently); "
             "rare classes tied to known deviations (duplicate source, single-source list with linkMerge, dangling step) "
             "are generated with probability <= 6% each. operator cases: token trees of depth <= 3 with tags as build_token "
             "(same tag), GatherStep (t.i in order), depth-2 gather (t.i.j) or shuffled, through ListMergeCombinator."
@@ -379,7 +408,7 @@ class C29(Prop):
     COQ_SHARD = 200
 
     # floor on the cases that actually got a verdict (framework: fewer => CORRESPONDENCE-ERROR); see judged()
-    MIN_JUDGED = {"prog": 40, "prog-ref-ok": 20, "op": 250}
+    MIN_JUDGED = {"prog": 45, "prog-ref-ok": 25, "op": 250}
 
     def judged(self, c, o):
         """Kinds of verdict this case contributes to: a program counts when the reference gave a verdict (it finished
@@ -616,7 +645,7 @@ class C29(Prop):
             finally:
                 sflogger.removeHandler(h)
             out2, log2 = io.StringIO(), io.StringIO()
-            rc2 = cwltool.main.main(argsl=["--no-container", "--disable-js-validation", "--eval-timeout", "900", "--outdir",
+            rc2 = cwltool.main.main(argsl=["--enable-ext", "--no-container", "--disable-js-validation", "--eval-timeout", "900", "--outdir",
                                            "o-ref", "wf.cwl", "job.json"], stdout=out2, stderr=log2,
                                     logger_handler=logging.StreamHandler(log2))
 
@@ -624,7 +653,11 @@ class C29(Prop):
                 if rc != 0:
                     return {"fail": True}
                 try:
-                    return {"ok": json.loads(out)}
+                    probs = []
+                    r = {"ok": canon_files(json.loads(out), probs)}
+                    if probs:
+                        r["fileproblems"] = probs
+                    return r
                 except ValueError:
                     return {"fail": True}
             return {"sf": parse(rc1, out1.getvalue()), "ref": parse(rc2, out2.getvalue()), "inproc": True}
@@ -660,7 +693,7 @@ class C29(Prop):
 
             if not parallel:
                 rc1, o1, e1 = wait(p1)
-            p2 = subprocess.Popen(["/venv/bin/cwltool", "--no-container", "--disable-js-validation", "--eval-timeout",
+            p2 = subprocess.Popen(["/venv/bin/cwltool", "--enable-ext", "--no-container", "--disable-js-validation", "--eval-timeout",
                                    "900", "--outdir", "o-ref", "wf.cwl", "job.json"],
                                   cwd=d, env=env2, stdout=subprocess.PIPE, stderr=subprocess.PIPE, text=True)
             if parallel:
@@ -673,7 +706,11 @@ class C29(Prop):
                 if rc != 0:
                     return {"fail": True}
                 try:
-                    return {"ok": json.loads(out)}
+                    probs = []
+                    r = {"ok": canon_files(json.loads(out), probs)}
+                    if probs:
+                        r["fileproblems"] = probs
+                    return r
                 except ValueError:
                     return {"fail": True, "unparsable": out[-200:]}
 
@@ -702,6 +739,8 @@ class C29(Prop):
             return ("crash", f"harness/implementation crashed or hung: {str(o)[:300]}")
         if c["f"] == "prog":
             sf, ref = o["sf"], o["ref"]
+            if sf.get("fileproblems"):
+                return ("file-metadata", "StreamFlow output File: " + "; ".join(sf["fileproblems"])[:300])
             if ref.get("timeout"):
                 return None          # the reference did not finish (overloaded machine): no verdict on this program
             if "ok" in ref and sf.get("timeout"):
@@ -786,6 +825,30 @@ class C29(Prop):
                 w["steps"][si]["in"] = [l for l in w["steps"][si]["in"] if l["id"] != "w"]
                 w["steps"][si]["scatter"] = [x for x in w["steps"][si]["scatter"] if x != "w"]
                 yield {**c, "wf": w}
+
+
+def canon_files(x, problems):
+    """File objects of an output object -> {class, basename, contents}; size and checksum are checked against the
+    contents read from the file (a discrepancy is recorded in [problems]); locations/paths are dropped."""
+    import hashlib
+    if isinstance(x, list):
+        return [canon_files(y, problems) for y in x]
+    if isinstance(x, dict):
+        if x.get("class") == "File":
+            path = x.get("path") or (x.get("location") or "")[len("file://"):]
+            try:
+                with open(path, "rb") as f:
+                    data = f.read()
+            except OSError:
+                problems.append("unreadable output file %s" % x.get("basename"))
+                data = b""
+            if x.get("size") is not None and x["size"] != len(data):
+                problems.append("size %r of %s, file has %d bytes" % (x["size"], x.get("basename"), len(data)))
+            if x.get("checksum") and x["checksum"] != "sha1$" + hashlib.sha1(data).hexdigest():
+                problems.append("checksum of %s does not match its contents" % x.get("basename"))
+            return {"class": "File", "basename": x.get("basename"), "contents": data.decode("utf-8", "replace")}
+        return {k: canon_files(v, problems) for k, v in x.items()}
+    return x
 
 
 def _uses(wf, sid):
